@@ -35,8 +35,8 @@ An unrecognised source gives `def srcShape_<f> : Bool := false` and the broken o
 
 What the translation does not read is pinned as text (see py2lean.py, "WHAT AN EDIT OF /repo DOES"): the function around a
 region (`srcSkeleton_<f>`; for the matrix regions of bottleneck / wasserstein also everything AFTER the region up to the end of
-the function, `srcSkeletonAfter_<f>`: the bisection with its oracle call, `linear_sum_assignment`, the extraction of the
-matching; for `compute_landscape` the whole method around the midpoint and the two ramp loops, the descending sort included),
+the function, `srcSkeletonAfter_<f>`, with the statements that the matching engine py2lean_matching.py translates -- the bisection
+with its oracle call, `linear_sum_assignment`, the extraction of the matching -- blanked as well; for `compute_landscape` the whole method around the midpoint and the two ramp loops, the descending sort included),
 decorators / parameters / defaults (`srcSignature_<function>`), module- and class-level bindings of the names and `self.<attr>`
 used (`srcBindings_<file>`).  A target with `region="pin"` translates nothing and pins the whole body (the constructor of
 `PersLandscapeExact`, whose conversion to float is the identity of the models).
@@ -1903,6 +1903,10 @@ def find_region(cfg, fn):
                                 raise Shape("the region of %s is not at the top level of the function" % fn.name)
                             k0 = [id(x) for x in body].index(id(picked[0]))
                             holes = {id(s) for s in picked}
+                            if cfg.get("after_engine"):       # what surrounds the region is translated by the matching engine: blanked there
+                                from . import py2lean_matching
+                                return (list(picked), py2lean_matching.pin_text(cfg["file"], fn, body[:k0 + len(picked)], holes),
+                                        py2lean_matching.pin_text(cfg["file"], fn, body[k0:], holes))
                             return (list(picked), unparse_with_holes(body[:k0 + len(picked)], holes, collapse=True),
                                     unparse_with_holes(body[k0:], holes, collapse=True))
                         return list(picked), unparse_with_holes(body, {id(s) for s in picked}, collapse=True), None
@@ -2544,68 +2548,16 @@ TARGETS += [
 ]
 
 # ---- persim/bottleneck.py, persim/wasserstein.py : the augmented matrix, entry by entry  ->  augD / augEntry (C01, C02)
-PREP_SKELETON = (
-    "S = np.array(dgm1, dtype=float)\nM = min(S.shape[0], S.size)\nif S.size > 0:\n    S = S[np.isfinite(S[:, 1]), :]\n"
-    "    if S.shape[0] < M:\n        warnings.warn('dgm1 has points with non-finite death times;' + 'ignoring those points')\n"
-    "        M = S.shape[0]\nT = np.array(dgm2, dtype=float)\nN = min(T.shape[0], T.size)\nif T.size > 0:\n"
-    "    T = T[np.isfinite(T[:, 1]), :]\n    if T.shape[0] < N:\n"
-    "        warnings.warn('dgm2 has points with non-finite death times;' + 'ignoring those points')\n        N = T.shape[0]\n"
-    "if M == 0:\n    S = np.array([[0, 0]])\n    M = 1\nif N == 0:\n    T = np.array([[0, 0]])\n    N = 1\n...")
+# the preamble in front of the matrix (float conversion, finite-death filter with its warning, the (0,0) placeholder) is TRANSLATED
+# by the matching engine (py2lean_matching.py, targets `bn_preamble` / `ws_preamble`): in the `srcSkeleton_aug_entry` text it is `...`
 
 # what consumes the matrix: bottleneck's bisection over the sorted distinct entries with Hopcroft-Karp as the oracle and the
 # extraction of the matching; wasserstein's `linear_sum_assignment` and the matching rows.  Modelled by hand (Model/Bottleneck,
-# Model/Wasserstein: `bisect`, `extractRows`, …, the solvers as parameters with contracts); this text is what those models
-# were written against, so a statement inserted between the matrix and the solver, or a changed comparison, is noticed.
-BN_AFTER_SKELETON = (
-    '...\n'
-    'ds = np.sort(np.unique(D.flatten()))\n'
-    'bdist = ds[-1]\n'
-    'matching = {}\n'
-    'while len(ds) >= 1:\n'
-    '    idx = 0\n'
-    '    if len(ds) > 1:\n'
-    '        idx = bisect_left(range(ds.size), int(ds.size / 2))\n'
-    '    d = ds[idx]\n'
-    '    graph = {}\n'
-    '    for i in range(D.shape[0]):\n'
-    "        graph['{}'.format(i)] = {j for j in range(D.shape[1]) if D[i, j] <= d}\n"
-    '    res = HopcroftKarp(graph).maximum_matching()\n'
-    '    if len(res) == 2 * D.shape[0] and d <= bdist:\n'
-    '        bdist = d\n'
-    '        matching = res\n'
-    '        ds = ds[0:idx]\n'
-    '    else:\n'
-    '        ds = ds[idx + 1:]\n'
-    'if return_matching:\n'
-    '    matchidx = []\n'
-    '    for i in range(M + N):\n'
-    "        j = matching['{}'.format(i)]\n"
-    '        d = D[i, j]\n'
-    '        if i < M:\n'
-    '            if j >= N:\n'
-    '                j = -1\n'
-    '        else:\n'
-    '            if j >= N:\n'
-    '                continue\n'
-    '            i = -1\n'
-    '        matchidx.append([i, j, d])\n'
-    '    return (bdist, np.array(matchidx))\n'
-    'else:\n'
-    '    return bdist')
-WS_AFTER_SKELETON = (
-    '...\n'
-    'matchi, matchj = optimize.linear_sum_assignment(D)\n'
-    'matchdist = np.sum(D[matchi, matchj])\n'
-    'if matching:\n'
-    '    matchidx = [(i, j) for i, j in zip(matchi, matchj)]\n'
-    '    ret = np.zeros((len(matchidx), 3))\n'
-    '    ret[:, 0:2] = np.array(matchidx)\n'
-    '    ret[:, 2] = D[matchi, matchj]\n'
-    '    ret[ret[:, 0] >= M, 0] = -1\n'
-    '    ret[ret[:, 1] >= N, 1] = -1\n'
-    '    ret = ret[ret[:, 0] + ret[:, 1] != -2, :]\n'
-    '    return (matchdist, ret)\n'
-    'return matchdist')
+# Model/Wasserstein: `bsearch`, `extractRows`, …, the solvers as parameters with contracts).
+# Since the matching engine (py2lean_matching.py; Generated/SrcBottleneckSearch.lean, SrcWassersteinAssign.lean) TRANSLATES these
+# statements, they are `...` in the text below as well: what is left is the `if <flag>:` header and the `return` statements.
+BN_AFTER_SKELETON = '...\nif return_matching:\n    ...\n    return (bdist, np.array(matchidx))\nelse:\n    return bdist'
+WS_AFTER_SKELETON = '...\nif matching:\n    ...\n    return (matchdist, ret)\nreturn matchdist'
 
 TARGETS += [
     dict(file="bottleneck", func="bottleneck", lean="aug_entry", region="range_in", skeleton_mode="before",
@@ -2614,7 +2566,7 @@ TARGETS += [
          variables="[Sub α] [Div α] [Neg α] [Zero α] [OfNat α 2] [Max α] [LE α] [DecidableLE α]",
          result="Ext α", fin=".fin %s", top=".top",
          mcalls={"np.abs": ("fn1", "absM"), "np.maximum": ("fn2", "max"), "np.zeros": ("zeros",)},
-         skeleton="return_matching = matching\n" + PREP_SKELETON, skeleton_after=BN_AFTER_SKELETON,
+         skeleton="...", skeleton_after=BN_AFTER_SKELETON, after_engine=True,
          obligations=[("src_aug_entry_eq_model", "", "aug_entry (α := α) = augD", "rfl",
                        "the block assignments `D[0:M, 0:N] = max(|Sb - Tb|, |Sd - Td|)`, `D[0:M, N::]` / `D[M::, 0:N]` = inf with "
                        "`0.5 * (death - birth)` on the diagonal, zeros elsewhere, read entry by entry: the model's `augD`")]),
@@ -2626,7 +2578,7 @@ TARGETS += [
          mcalls={"np.sqrt": ("fn1", "sqrt"), "np.sum": ("sum_axis2",), "np.zeros": ("zeros",),
                  "np.cos": ("param", "cp", "np.cos(np.pi / 4)"), "np.sin": ("param", "sp", "np.sin(np.pi / 4)"),
                  "np.array": ("array22",)},
-         skeleton=PREP_SKELETON, skeleton_after=WS_AFTER_SKELETON,
+         skeleton="...", skeleton_after=WS_AFTER_SKELETON, after_engine=True,
          obligations=[("src_aug_entry_eq_model", "", "aug_entry (α := α) = augEntry", "rfl",
                        "`DUL` from the coordinate differences, the rotation by `R = [[cp, -sp], [sp, cp]]`, the three block "
                        "assignments with the rotated second coordinate on the diagonals, read entry by entry: the model's "
